@@ -12,7 +12,34 @@ fn budget(t: Tier) -> u64 {
     }
 }
 
+/// Count-dependent behaviour: one long run of distinct valid requests through 1-2 workers — at
+/// least several hundred signed batches, in a quarter of these runs more than 65536 requests —
+/// so that anything that wraps, saturates or goes stale after N requests / batches shows.
+fn gen_long(seed: u64) -> Plan {
+    let mut rng = Rng::derive(seed, "c09-long");
+    let mut plan = Plan::new("C09", "c09.long_run", seed);
+    let mut s = ServerSpec::basic(Mode::W, &random_seed_hex(&mut rng));
+    s.workers = *rng.pick(&[1i64, 1, 2]);
+    s.batch_size = *rng.pick(&[1i64, 1, 2, 3, 64]);
+    s.log_level = Some(0);
+    world_knobs(&mut rng, &mut plan, false);
+    plan.world.cost_scale = plan.world.cost_scale.min(1000);
+    plan.world.rcv_cap = 4096;
+    plan.world.step_cap = 60_000_000;
+    plan.server = Some(s);
+    let count = *rng.pick(&[700u32, 5_000, 20_000, 70_000]);
+    let interval_ns = 60_000;
+    plan.step(6000, Action::Stream { first_sock: 0, socks: 1 + rng.below(24) as u32, ietf_permille: *rng.pick(&[0u32, 500, 500, 1000]), interval_ns, count, nonce_base: seed ^ 0x10e6, burst_max: *rng.pick(&[1u32, 2, 5, 80]) });
+    plan.params.insert("stream_count".into(), count as i64);
+    plan.world.faults_until_ms = 0;
+    plan.world.horizon_ms = 6 + count as u64 * interval_ns / 1_000_000 + 1100;
+    plan
+}
+
 fn gen(seed: u64, idx: u64, _tier: Tier) -> Plan {
+    if idx % 400 == 399 {
+        return gen_long(seed);
+    }
     let mut rng = Rng::derive(seed, "c09");
     let profile = idx % 8;
     let (scenario, mode, faulty) = match profile {
@@ -105,6 +132,33 @@ fn check(plan: &Plan, out: &RunOut) -> CheckOut {
         co.probe("grease_profile");
     }
     check_exactly_once(&mut co, "C09", &v, out, true);
+    if plan.scenario == "c09.long_run" {
+        co.probe("long_run");
+        let answered = v.recvs.iter().filter(|q| !q.answers.is_empty()).count();
+        let batches = v.batches.iter().filter(|b| !b.sends.is_empty()).count();
+        let per_worker_max = {
+            let mut m: BTreeMap<usize, usize> = BTreeMap::new();
+            for b in v.batches.iter().filter(|b| !b.sends.is_empty()) {
+                *m.entry(b.task).or_default() += 1;
+            }
+            m.values().copied().max().unwrap_or(0)
+        };
+        if per_worker_max > 256 {
+            co.probe("worker_signed_more_than_256_batches");
+        }
+        if per_worker_max > 65_536 {
+            co.probe("worker_signed_more_than_65536_batches");
+        }
+        if answered > 65_536 {
+            co.probe("more_than_65536_requests_answered");
+        }
+        co.count("long_run_requests_answered", answered as u64);
+        co.count("long_run_batches", batches as u64);
+        // nothing may have been turned away by a full queue: the stream is paced below the service rate
+        if (answered as i64) < plan.p("stream_count") {
+            co.probe("long_run_not_all_answered");
+        }
+    }
     // client side: no client socket receives a response whose proof binds another socket's request.
     // Every delivered datagram was sent by a server socket; the send-side match (same worker,
     // destination = source of the matched request, proof verified for it) already pins this down,
@@ -137,11 +191,21 @@ fn check(plan: &Plan, out: &RunOut) -> CheckOut {
     // both responders non-empty in one collect cycle: an IETF batch directly followed by a classic
     // batch of the same task without a receive in between
     let mut last: BTreeMap<usize, (u64, r::Proto)> = BTreeMap::new();
+    let mut recv_seqs: BTreeMap<usize, Vec<u64>> = BTreeMap::new();
+    for q in &v.recvs {
+        recv_seqs.entry(q.task).or_default().push(q.seq);
+    }
+    for l in recv_seqs.values_mut() {
+        l.sort_unstable();
+    }
     for b in &v.batches {
         if let Some(&s0) = b.sends.first() {
             let p = crate::view::response_proto(&v.sends[s0].data);
             if let Some((prev_seq, pp)) = last.get(&b.task) {
-                let recv_between = v.recvs.iter().any(|q| q.task == b.task && q.seq > *prev_seq && q.seq < b.clock_seq);
+                let recv_between = recv_seqs.get(&b.task).map(|l| {
+                    let i = l.partition_point(|&x| x <= *prev_seq);
+                    i < l.len() && l[i] < b.clock_seq
+                }).unwrap_or(false);
                 if !recv_between && *pp != p {
                     co.probe("both_responders_in_one_cycle");
                 }
